@@ -544,7 +544,11 @@ func c14V3Arrivals(c *Ctx, n int) {
 			kind := ""
 			piece := c.genPayload(1 + c.R.Intn(4))
 			var m []byte
-			switch x := c.R.Intn(19); {
+			switch x := c.R.Intn(20); {
+			case x == 19:
+				// a fragment in the version 2 format (no tags): not for a version 3 conversation
+				kind = "v2-format"
+				m = []byte(fmt.Sprintf("?OTR,%05d,%05d,%s,", k+1, tot, piece))
 			case x == 16:
 				kind = "one-bar"
 				m = []byte(fmt.Sprintf("?OTR|%08x%08x,%05d,%05d,%s,", st, rt, k+1, tot, piece))
